@@ -46,7 +46,8 @@ def parse_job_R(r):
     return last, arrays
 
 
-def tier_a_jobs(impl, scripts, aspects, workers_default=15):
+def tier_a_jobs(impl, scripts, aspects, workers_default=15, no_layout=False):
+    """no_layout: the output has no V/A lines (the C interface cannot list archetypes): only what the callbacks received is judged"""
     out = []
     lines_of = dict(scripts)
     for name, blocks in impl:
@@ -66,7 +67,7 @@ def tier_a_jobs(impl, scripts, aspects, workers_default=15):
         for i, b in enumerate(blocks):
             if b['crash']:
                 break
-            if not b['tags'].get('V'):
+            if not b['tags'].get('V') and not no_layout:
                 continue
             t = b['op'].split()
             op = t[0]
@@ -145,7 +146,7 @@ def tier_a_jobs(impl, scripts, aspects, workers_default=15):
                     if not fail and not jb['chk'] and set(hs) != matching:
                         fail = ('visits', 'job without version filter visited %d entities, %d have the required components (missing %s)' %
                                 (N, len(matching), sorted(matching - set(hs))[:3]))
-                    if not fail and N:
+                    if not fail and N and not no_layout:
                         T = 1 if mode == 0 else max(1, forced if forced else min(N, workers + 1))
                         per_task = {}
                         for task, idx, h, vals in visits:
@@ -157,7 +158,7 @@ def tier_a_jobs(impl, scripts, aspects, workers_default=15):
                             if got != list(range(start, start + sz)):
                                 fail = ('visits', 'task %d of %d received entity indexes %s, expected %d..%d' % (k, T, got[:8], start, start + sz - 1)); break
                             start += sz
-                    if not fail:
+                    if not fail and not no_layout:
                         for task, idx, ents in arrays:
                             ps = [pos.get(e[0]) for e in ents]
                             if any(p_ is None for p_ in ps) or any(ps[k + 1] != (ps[k][0], ps[k][1] + 1) for k in range(len(ps) - 1)):
